@@ -38,10 +38,33 @@ def wiring(model):
     selfn = sub.params[0]
     # ---- subscribe: which registry per kind
     g = cfg_of(sub)
+    # registries are the dict-valued fields of the fabric (assigned {} / dict() in __init__)
+    dict_fields0 = set()
+    init0 = fab.methods.get('__init__')
+    for n in walk_shallow(init0.node):
+        if isinstance(n, ast.Assign) and (isinstance(n.value, ast.Dict) or (isinstance(n.value, ast.Call) and norm(n.value.func) in ('dict', 'OrderedDict', 'defaultdict'))):
+            for t in n.targets:
+                d = dotted(t)
+                if d and d.startswith(init0.params[0] + '.'):
+                    dict_fields0.add(d.split('.', 1)[1])
     helper = None
+    w.inline = False
     for h in sub.nested.values():
         helper = h
-    if helper is None or len(sub.nested) != 1:
+    if not sub.nested:
+        # the registry work is written out in subscribe() itself: the local that the selector binds to one of the registries plays the helper's parameter
+        regl = set()
+        for n in g.nodes:
+            if n.kind == 'stmt' and isinstance(n.ast, ast.Assign) and len(n.ast.targets) == 1 and isinstance(n.ast.targets[0], ast.Name):
+                dv = dotted(n.ast.value)
+                if dv and dv.startswith(selfn + '.') and dv.split('.', 1)[1] in dict_fields0:
+                    regl.add(n.ast.targets[0].id)
+        if len(regl) == 1:
+            from .util import FuncView
+            helper = FuncView(sub, sub.node)
+            helper.params = [regl.pop()]
+            w.inline = True
+    if helper is None or (len(sub.nested) != 1 and not w.inline):
         raise AnalysisError('subscribe: expected exactly one nested registry helper')
     w.helper = helper
     qt = sub.params[3] if len(sub.params) > 3 else None
@@ -53,7 +76,18 @@ def wiring(model):
     named = const_str(t.ast.comparators[0])
     other = 'fifo' if named == 'lifo' else 'lifo'
     w.registry = {}
+    if w.inline:
+        for m_ in g.nodes:
+            if m_.kind == 'stmt' and isinstance(m_.ast, ast.Assign) and any(isinstance(t_, ast.Name) and t_.id == helper.params[0] for t_ in m_.ast.targets):
+                dv = dotted(m_.ast.value)
+                kind = named if guarded_by_edge(g, m_, t, 'true') else (other if guarded_by_edge(g, m_, t, 'false') else None)
+                if kind is None or not dv:
+                    raise AnalysisError('subscribe: registry selection not under the queue_type selector')
+                w.registry[kind] = dv.split('.', 1)[1]
+        w.sub_event_arg = None
     for n in g.nodes:
+        if w.inline:
+            break
         if n.kind in ('entry', 'exit', 'xexit', 'def'):
             continue
         for c in n.calls():
@@ -80,7 +114,6 @@ def wiring(model):
                 w.sub_event_arg = c.args[1] if len(c.args) > 1 else None
     if set(w.registry) != {'fifo', 'lifo'}:
         raise AnalysisError('subscribe: registries per kind not identified (%s)' % w.registry)
-    # default kind when queue_type is None
     # without an explicit default, None is simply "not the named kind": the other side of the selector
     w.default_kind = other if (set(w.registry) == {'fifo', 'lifo'}) else None
     for n in walk_shallow(sub.node):
